@@ -48,7 +48,7 @@ ASSUMPTIONS = [
     "bounds: get_schedule ends by its own 15 s timeout (+1 s slack); set_schedule by 240 s (3 min lock wait + sends); the caller's own wait_for bound when shorter",
     "the aftermath probes run with all faults off",
 ]
-REQUIRED = {"episodes": 30, "calls": 60, "calls.returned": 20, "calls.failed": 5, "faults.applied": 20, "aftermath.probes": 30, "bumps": 5}
+REQUIRED = {"episodes": 30, "calls": 60, "calls.returned": 20, "calls.failed": 5, "faults.applied": 20, "aftermath.probes": 30, "bumps": 5, "sequence.episodes": 20, "sequence.sets": 30, "sequence.gets": 10}
 
 CTL, GWY_ID = "01:145038", "18:006402"
 
@@ -430,7 +430,134 @@ async def episode(loop: vloop.VirtualLoop, ctx, trial: int) -> None:
     air.close()
 
 
+async def sequence(loop: vloop.VirtualLoop, ctx, trial: int) -> None:
+    """State carried from one transfer into the next, on a clean link: a zone is written, its schedule is then
+    changed at the controller by somebody else and the library learns of it (by fetching it, or by overhearing the
+    controller answer another requester), and then a schedule is written again - the one the library now holds,
+    the one it wrote before, or a new one.  Every write that returns normally must have put exactly its schedule
+    into the controller *by that call's own frames*, and every fetch must return what the controller holds."""
+    import random
+
+    rng = random.Random(f"C18seq/{ctx.seed}/{trial}")
+    zones = ["01", "03", "0A"][: rng.choice((1, 2, 3))]
+    air = airmod.Air(loop)
+    sim = SimCtl(loop, air, rng, zones)
+    schema = {CTL: {"zones": {z: {"class": "radiator_valve"} for z in zones}}, "main_tcs": CTL}
+    gwy = await harness.start_port_gateway(loop, air, GWY_ID, config={"disable_discovery": True}, **schema)
+    await asyncio.sleep(0.5)
+    tcs = gwy.tcs
+    z = rng.choice(zones)
+    zone = tcs.zone_by_idx[z]
+    meta: dict[str, Any] = {"seed": ctx.seed, "trial": trial, "family": "sequence", "zone": z, "steps": []}
+    written: list[Any] = []
+
+    async def step_set(which: str) -> None:
+        if which == "held":  # what the controller (and, after a fetch / an overheard set, the library) holds now
+            wanted = copy.deepcopy(sim.sched[z]["schedule"])
+        elif which == "earlier" and written:
+            wanted = copy.deepcopy(rng.choice(written))
+        else:
+            wanted = gen_schedule(rng, "zone", z)["schedule"]
+        meta["steps"].append(f"set({which})")
+        t0 = loop.time()
+        n_writes = len(sim.history[z])
+        ctx.count("sequence.sets")
+        try:
+            await asyncio.wait_for(zone.set_schedule(copy.deepcopy(wanted)), timeout=240.0)
+        except Exception as err:  # noqa: BLE001
+            ctx.violate(f"C18|sequence|set-failed-on-a-clean-link|{type(err).__name__}", "on a clean link a schedule write failed", {"error": repr(err)[:160], "episode": meta})
+            return
+        written.append(wanted)
+        mine = [s for since, s in sim.history[z][n_writes:] if since >= t0]
+        if wanted not in mine:
+            ctx.violate(
+                f"C18|sequence|set-returned-ok-but-not-written|{which}|{'nothing-written' if not mine else 'another-schedule-written'}",
+                "set_schedule() returned normally but its own frames did not put exactly the requested schedule into the controller",
+                {"which": which, "wanted_first_day": wanted[0], "controller_first_day": (sim.sched[z]["schedule"] or [None])[0], "writes_completed_during_call": len(mine), "episode": meta},
+            )
+        if zone.schedule != wanted:
+            ctx.violate("C18|sequence|published-schedule-differs-from-written", "after a successful write the zone publishes another schedule than the one written", {"which": which, "episode": meta})
+
+    async def step_edit() -> None:
+        if rng.random() < 0.4:
+            # the smallest edit a user makes: one setpoint, late in the week (the head of the compressed stream, and
+            # with it the first fragment(s), may well stay byte for byte the same)
+            sched = copy.deepcopy(sim.sched[z])
+            day = sched["schedule"][rng.choice((-1, -1, -2, 3))]
+            sp = day["switchpoints"][rng.choice((-1, -1, 0))]
+            sp["heat_setpoint"] = round(sp["heat_setpoint"] + rng.choice((0.5, -0.5, 1.0)), 2) if 6 <= sp["heat_setpoint"] <= 34 else 20.0
+            sim.set(z, sched)
+            meta["steps"].append("controller-edit(one setpoint)")
+            ctx.count("sequence.small_edits")
+            if sim.frags[z][0] == ref_fragments({"zone_idx": z, "schedule": sim.history[z][-2][1]})[0]:
+                ctx.count("sequence.small_edits_with_unchanged_first_fragment")
+        else:
+            sim.set(z, gen_schedule(rng, "zone", z, stress=rng.random() < 0.3))
+            meta["steps"].append("controller-edit")
+        ctx.count("bumps")
+        await asyncio.sleep(rng.choice((0.1, 5.0, 200.0)))
+
+    async def step_get(force: bool) -> None:
+        meta["steps"].append("get-force" if force else "get")
+        t0 = loop.time()
+        ctx.count("sequence.gets")
+        try:
+            got = await asyncio.wait_for(zone.get_schedule(force_io=force), timeout=16.0)
+        except Exception as err:  # noqa: BLE001
+            ctx.violate(f"C18|sequence|get-failed-on-a-clean-link|{type(err).__name__}", "on a clean link a schedule fetch failed", {"error": repr(err)[:160], "episode": meta})
+            return
+        ok = sim.versions_during(z, t0 - (0.0 if force else 180.0), loop.time())
+        if got not in ok:
+            ctx.violate(f"C18|sequence|get|stale-or-mixed|{'get-force' if force else 'get'}", "in a sequence of transfers a fetch returned a schedule the controller did not hold during the call", {"episode": meta, "returned_first_day": got[0] if got else None})
+
+    async def step_overhear() -> None:
+        meta["steps"].append("overheard-full-set")
+        frs = list(sim.frags[z])
+        air.inject(f"RP --- {CTL} 18:111111 --:------ 0006 004 0005{sim.counter:04X}", faultable=False)
+        for k, fr in enumerate(frs):
+            air.inject(rp_0404(z, k + 1, len(frs), fr).replace(GWY_ID, "18:111111"), delay=0.05 + 0.04 * k, faultable=False)
+        await asyncio.sleep(0.3 + 0.04 * len(frs))
+
+    plan = rng.choice((
+        ("set:new", "edit", "get-force", "set:held"),
+        ("set:new", "edit", "overhear", "set:held"),
+        ("get", "edit", "get-force", "set:held", "get-force"),
+        ("set:new", "set:new", "edit", "get-force", "set:earlier"),
+        ("set:new", "edit", "get", "set:held"),
+        ("set:new", "set:held", "edit", "overhear", "set:earlier", "get-force"),
+    ))
+    for st in plan:
+        if st.startswith("set:"):
+            await step_set(st[4:])
+        elif st == "edit":
+            await step_edit()
+        elif st == "overhear":
+            await step_overhear()
+        else:
+            await step_get(st == "get-force")
+        await asyncio.sleep(rng.choice((0.05, 1.0, 200.0)))
+    ctx.ev()
+    ctx.count("sequence.episodes")
+    ctx.seen("sequence|" + ",".join(plan))
+    if tcs.zone_lock_idx is not None:
+        ctx.violate("C18|leftover|transfer-lock-still-held|after-sequence", "after a sequence of transfers the schedule lock was still held", {"episode": meta})
+    await harness.stop_gateway(gwy)
+    air.close()
+
+
 def run(ctx) -> None:
+    for k in range(6 if ctx.quick else 150):
+        trial = ctx.shard + k * ctx.nshards
+        harness.reset_transport_globals()
+
+        async def gos(loop, trial=trial):
+            with clocks_patched():
+                await sequence(loop, ctx, trial)
+
+        try:
+            vloop.run(gos)
+        except vloop.Starved as err:
+            ctx.inconclusive_because(f"sequence starved the virtual clock: {err}")
     n = 60 if ctx.quick else 1500
     for k in range(n):
         trial = ctx.shard + k * ctx.nshards  # the systematic walk (trial < 60) is spread over the shards
